@@ -4856,13 +4856,24 @@ fn announce_service_on_intf(
 /// - `foo.local.` becomes `foo (2).local.`
 /// - `foo (2).local.` becomes `foo (3).local.`
 /// - `foo (9)` becomes `foo (10)`
+/// Appends `suffix` to `base`. `base` is cut (at a character boundary) if needed, so
+/// that the result still fits in a DNS label.
+fn label_with_suffix(base: &str, suffix: &str) -> String {
+    const LABEL_LEN_MAX: usize = 63;
+    let mut end = base.len().min(LABEL_LEN_MAX.saturating_sub(suffix.len()));
+    while !base.is_char_boundary(end) {
+        end -= 1;
+    }
+    format!("{}{}", &base[..end], suffix)
+}
+
 fn name_change(original: &str) -> String {
     let mut parts: Vec<_> = original.split('.').collect();
     let Some(first_part) = parts.get_mut(0) else {
         return format!("{original} (2)");
     };
 
-    let mut new_name = format!("{first_part} (2)");
+    let mut new_name = label_with_suffix(first_part, " (2)");
 
     // check if there is already has `(<num>)` suffix.
     if let Some(paren_pos) = first_part.rfind(" (") {
@@ -4877,7 +4888,7 @@ fn name_change(original: &str) -> String {
                     // if the number cannot grow any more, append a new suffix instead.
                     if let Some(next_number) = number.checked_add(1) {
                         let base_name = &first_part[..paren_pos];
-                        new_name = format!("{} ({})", base_name, next_number)
+                        new_name = label_with_suffix(base_name, &format!(" ({next_number})"))
                     }
                 }
             }
@@ -4901,7 +4912,7 @@ fn hostname_change(original: &str) -> String {
         return format!("{original}-2");
     };
 
-    let mut new_name = format!("{first_part}-2");
+    let mut new_name = label_with_suffix(first_part, "-2");
 
     // check if there is already a `-<num>` suffix
     if let Some(hyphen_pos) = first_part.rfind('-') {
@@ -4910,7 +4921,7 @@ fn hostname_change(original: &str) -> String {
             // if the number cannot grow any more, append a new suffix instead.
             if let Some(next_number) = number.checked_add(1) {
                 let base_name = &first_part[..hyphen_pos];
-                new_name = format!("{}-{}", base_name, next_number);
+                new_name = label_with_suffix(base_name, &format!("-{next_number}"));
             }
         }
     }
